@@ -505,7 +505,7 @@ fn process_tags(
             let el = if let Some(el) = t.get_element() {
                 // update early so reuse targets are available even if the element
                 // is not ready (e.g. within a specs block)
-                context.update_element(&el);
+                context.register_original(&el);
                 Some(el.clone())
             } else {
                 None
